@@ -9,7 +9,7 @@ from ..model import AnalysisError, Func, Program, walk_own
 from ..orderings import NotAFormula, eval_order, weak_orderings
 from ..report import Report
 from ..resolve import const_value, dotted, kwarg
-from ..util import calls_in, ext_name, returns_of, src
+from ..util import before, calls_in, ext_name, returns_of, src
 from .c10 import relation_formula_check
 
 MAPS_MOD = "windpyutils.structures.maps"
@@ -29,7 +29,7 @@ def run(prog: Program, rep: Report):
     r2_sites(prog, rep, prog.cls("SpanSet", SPAN_MOD), rule="C16.R5", floor=3)
     from .memo import public_entry_points, rule_derived_state
     from .ownership import rule_no_class_state
-    roles = interval_roles(prog.method(im, "__init__"))
+    roles = interval_roles(prog.method_view(im, "__init__"))
     prim = {v.split(".", 1)[1] for v in roles.values() if v.startswith("self.")}
     rule_derived_state(prog, rep, "C16.R6", im, prim, public_entry_points(prog, im),
                        what="the map is immutable: a remembered key or value (a one-entry look-up memo) is derived from the look-up "
@@ -50,7 +50,7 @@ def r2_construction(prog, rep: Report, im):
     rep.rule("C16.R2", "construction: every interval passes a `start > end -> raise KeyError` test before it is recorded; "
              "disjointness is decided by a span set built with the Overlaps relation and duplicate check on, from "
              "index-aligned starts/ends, followed by `len(span_set) != len(mapping) -> raise KeyError`", floor=4)
-    f = prog.method(im, "__init__")
+    f = prog.method_view(im, "__init__")
     rep.fn(f)
     mapping = f.params[1]
     loop = None
@@ -175,15 +175,52 @@ def interval_roles(init: Func) -> Dict[str, str]:
                 roles["sorted"] = appended[e]
             if i in appended:
                 roles["perm"] = appended[i]
+    # argsort form:  perm = sorted(range(len(<ends>)), key=<ends>.__getitem__ | lambda i: <ends>[i]);  sorted = [<ends>[i] for i in perm]
+    if "perm" not in roles or "sorted" not in roles:
+        a = argsort_construction(init)
+        if a is not None:
+            roles["perm"], roles["sorted"] = a["perm"], a["sorted"]
     return roles
+
+
+def argsort_construction(init: Func) -> Optional[Dict[str, object]]:
+    """{'perm': text, 'sorted': text, 'from': text of the unsorted ends, 'ok': ascending stable argsort of the ends and the ends
+    gathered through it} for the argsort way of building the two arrays, or None"""
+    perm_t = src_t = None
+    asc = False
+    from ..util import iter_stores
+    for t, v, st in iter_stores(init.node):
+        if isinstance(v, ast.Call) and src(v.func) == "sorted" and len(v.args) == 1 and isinstance(v.args[0], ast.Call) \
+                and src(v.args[0].func) == "range" and len(v.args[0].args) == 1 and isinstance(v.args[0].args[0], ast.Call) \
+                and src(v.args[0].args[0].func) == "len" and v.args[0].args[0].args:
+            base = src(v.args[0].args[0].args[0])
+            key = next((k.value for k in v.keywords if k.arg == "key"), None)
+            rev = next((k.value for k in v.keywords if k.arg == "reverse"), None)
+            key_ok = (isinstance(key, ast.Attribute) and key.attr == "__getitem__" and src(key.value) == base) or \
+                (isinstance(key, ast.Lambda) and isinstance(key.body, ast.Subscript) and src(key.body.value) == base
+                 and key.args.args and src(key.body.slice) == key.args.args[0].arg)
+            if key_ok:
+                perm_t, src_t = src(t), base
+                asc = rev is None or const_value(rev) is False
+    if perm_t is None:
+        return None
+    sorted_t = None
+    for t, v, st in iter_stores(init.node):
+        if isinstance(v, ast.ListComp) and len(v.generators) == 1 and not v.generators[0].ifs and src(v.generators[0].iter) == perm_t \
+                and isinstance(v.elt, ast.Subscript) and src(v.elt.value) == src_t and isinstance(v.generators[0].target, ast.Name) \
+                and src(v.elt.slice) == v.generators[0].target.id:
+            sorted_t = src(t)
+    if sorted_t is None:
+        return None
+    return {"perm": perm_t, "sorted": sorted_t, "from": src_t, "ok": asc}
 
 
 def r3_lookup(prog, rep: Report, im):
     rep.rule("C16.R3", "lookup: closed-interval idiom (bisect_left over the sorted ends, miss if index == len, miss if key < "
              "start of the candidate; both misses raise KeyError); candidate start and value are taken through the same "
              "permutation index; sorted ends and their permutation are built index-aligned", floor=5)
-    f = prog.method(im, "__getitem__")
-    init = prog.method(im, "__init__")
+    f = prog.method_view(im, "__getitem__")
+    init = prog.method_view(im, "__init__")
     rep.fn(f, init)
     key = f.params[1]
     flow = Flow(f.node)
@@ -222,6 +259,10 @@ def r3_lookup(prog, rep: Report, im):
                 perm = [k2 for k2, v in apps.items() if v == i_name]
                 perm_arr = perm[0] if perm else None
                 aligned = key_ok and perm_arr is not None and len(n.body) == 2
+    if perm_arr is None:
+        a = argsort_construction(init)
+        if a is not None and a["sorted"] == f"{init.self_name}.{sorted_arr}" and str(a["perm"]).startswith(init.self_name + "."):
+            perm_arr, built_from, aligned = str(a["perm"]).split(".", 1)[1], str(a["from"]), bool(a["ok"])
     if perm_arr is None:
         # recognisably wrong: the permutation array is filled as  perm[<original index>] = <sorted position>  (the inverse)
         for n in walk_own(init.node):
@@ -271,7 +312,7 @@ def r3_lookup(prog, rep: Report, im):
             sides = {src(l), src(r)}
             if idx in sides and f"len(self.{sorted_arr})" in sides:
                 miss1 = n
-            elif key in sides and n.lineno > b.lineno:
+            elif key in sides and before(f.node, b, n):
                 miss2 = n
         if isinstance(n, ast.Assign) and isinstance(n.value, ast.Subscript) and dotted(n.value.value) == (f.self_name, perm_arr) \
                 and src(n.value.slice) == idx and isinstance(n.targets[0], ast.Name):
@@ -282,7 +323,7 @@ def r3_lookup(prog, rep: Report, im):
         S = f"{f.self_name}.{sorted_arr}"
         alt = None
         for n in walk_own(f.node):
-            if isinstance(n, ast.If) and n.lineno < b.lineno and _raises(n.body) == "KeyError":
+            if isinstance(n, ast.If) and before(f.node, n, b) and _raises(n.body) == "KeyError":
                 parts = n.test.values if isinstance(n.test, ast.BoolOp) and isinstance(n.test.op, ast.Or) else [n.test]
                 for k, pt in enumerate(parts):
                     if isinstance(pt, ast.Compare) and len(pt.ops) == 1:
@@ -290,9 +331,9 @@ def r3_lookup(prog, rep: Report, im):
                         if (l == key and r == f"{S}[-1]" and isinstance(op, ast.Gt)) or (l == f"{S}[-1]" and r == key and isinstance(op, ast.Lt)):
                             empt = {f"not {S}", f"len({S}) == 0", f"0 == len({S})", f"len({S}) < 1"}
                             earlier = any(src(q) in empt for q in parts[:k])
-                            before = any(isinstance(m, ast.If) and m.lineno < n.lineno and src(m.test) in empt
+                            before_ = any(isinstance(m, ast.If) and before(f.node, m, n) and src(m.test) in empt
                                          and _raises(m.body) == "KeyError" for m in walk_own(f.node))
-                            alt = (n, earlier or before)
+                            alt = (n, earlier or before_)
         if alt is not None and alt[1]:
             rep.ok("C16.R3", f, "miss:beyond-last", f"`{src(alt[0].test)}` raises KeyError before the bisect (emptiness tested first)")
         elif alt is not None:
@@ -349,7 +390,7 @@ def r3_lookup(prog, rep: Report, im):
 def r4_derived(prog, rep: Report, im):
     rep.rule("C16.R4", "`in` is defined by lookup (True after self[key], False in the KeyError handler); len counts the "
              "intervals; iteration walks the end-sorted permutation yielding ((start, end), value)", floor=3)
-    f = prog.method(im, "__contains__")
+    f = prog.method_view(im, "__contains__")
     rep.fn(f)
     key = f.params[1]
     ok = False
@@ -368,16 +409,16 @@ def r4_derived(prog, rep: Report, im):
                 why = "the handler is not `except KeyError: return False` / the try does not return True"
     rep.check("C16.R4", f, "contains-by-lookup", ok, "try: self[key]; return True / except KeyError: return False", why,
               scenario="`key in m` and m[key] disagree: a miss propagates as an exception or a hit reports False")
-    ln = prog.method(im, "__len__")
+    ln = prog.method_view(im, "__len__")
     rep.fn(ln)
     ok = any(isinstance(r.value, ast.Call) and src(r.value.func) == "len" and r.value.args
              and dotted(r.value.args[0]) and dotted(r.value.args[0])[0] == ln.self_name for r in returns_of(ln.node))
     rep.check("C16.R4", ln, "len", ok, "len of one of the per-interval arrays", "__len__ does not count the intervals",
               scenario="len(m) differs from the number of intervals")
-    it = prog.method(im, "__iter__")
+    it = prog.method_view(im, "__iter__")
     rep.fn(it)
     ok = False
-    roles = interval_roles(prog.method(im, "__init__"))
+    roles = interval_roles(prog.method_view(im, "__init__"))
     for n in walk_own(it.node):
         if isinstance(n, ast.For) and isinstance(n.iter, ast.Call) and src(n.iter.func) == "zip" and len(n.iter.args) == 2 \
                 and isinstance(n.target, ast.Tuple):
@@ -393,6 +434,9 @@ def r4_derived(prog, rep: Report, im):
                 ok = isinstance(iv, ast.Tuple) and len(iv.elts) == 2 and isinstance(iv.elts[0], ast.Subscript) \
                     and src(iv.elts[0].slice) == i and src(iv.elts[0].value) == roles.get("starts") and src(iv.elts[1]) == e \
                     and isinstance(val, ast.Subscript) and src(val.slice) == i and src(val.value) == roles.get("values") or ok
-    rep.check("C16.R4", it, "iter", ok, "yields ((start[i], end), value[i]) along the end-sorted permutation",
-              "__iter__ does not yield ((start, end), value) aligned through the end-sorted permutation",
-              scenario="iteration is not ascending or pairs an interval with another interval's value")
+    if not ok and not ({"perm", "sorted", "starts", "values"} <= set(roles)):
+        rep.unrec("C16.R4", it, "iter", f"the arrays of the map could not be told apart from the constructor (found {sorted(roles)})")
+    else:
+        rep.check("C16.R4", it, "iter", ok, "yields ((start[i], end), value[i]) along the end-sorted permutation",
+                  "__iter__ does not yield ((start, end), value) aligned through the end-sorted permutation",
+                  scenario="iteration is not ascending or pairs an interval with another interval's value")
